@@ -225,6 +225,13 @@ func randTimestamp(r *rng) string {
 		}
 		oh := pick(r, []int{0, 1, 5, 12, 14, 23, 24, 99, r.intn(100)})
 		om := r.intn(60)
+		if r.chance(1, 14) {
+			// other ways of writing an offset, none of them RFC 3339
+			return s + sign + pick(r, []string{"0100", "01", "1:00", "001:00", "01:0", "01:000", "01:00:00", "01.00", "00:00Z", ":00", "01:"})
+		}
+		if r.chance(1, 14) {
+			return s + "Z" + sign + "01:00"
+		}
 		if offH >= 0 {
 			oh = offH
 		}
